@@ -28,7 +28,7 @@ ASSUMPTIONS = [
     "the reference encoders in vlib/gen/rdata.py (written from the RFCs) are correct",
     "'well-formed value' = produced by the type table; values only from_wire accepts are judged by the weaker fixed-point rule",
 ]
-REQUIRED = ["mon.roundtrip", "mon.ref_encode", "mon.hostile_decode", "mon.fixed_point", "mon.consumed_exactly"]
+REQUIRED = ["mon.first_lookup_in_foreign_class", "mon.roundtrip", "mon.ref_encode", "mon.hostile_decode", "mon.fixed_point", "mon.consumed_exactly"]
 BUDGET = {"quick": 45.0, "thorough": 480.0}
 
 UNREL = (b"unrelated-zz9", b"")
@@ -319,6 +319,19 @@ def run(spec, ctx):
     spy = ParserSpy().install()
     try:
         corpus = {}
+        # lookup-history independence: the implementation class of (class, type) is resolved lazily and cached per process.
+        # This shard process is fresh, so for half of its types the very first lookup is made in a class that has no
+        # implementation of the type; the round trips below then run on whatever the cache holds.
+        for t in spec["types"]:
+            rdclass, rdtype, _ = GR.TABLE[t]
+            if t != "UNKNOWN" and rng.random() < 0.5:
+                foreign = rng.choice((3, 4, 254, 255, 65280))
+                if foreign != rdclass:
+                    ctx.count("mon.first_lookup_in_foreign_class")
+                    dns.rdata.get_rdata_class(foreign, rdtype)
+                    cls = dns.rdata.get_rdata_class(rdclass, rdtype)
+                    if cls is dns.rdata.GenericRdata:
+                        ctx.violation(f"implementation-class-depends-on-lookup-history:{t}", f"first lookup in class {foreign}, then class {rdclass} gives GenericRdata", {"kind": "lookup", "type": t, "foreign": foreign})
         for t in spec["types"]:
             corpus[t] = []
             for i in range(spec["n_rt"]):
